@@ -63,7 +63,8 @@ def check(run: Run, prog: Program, model: Model, tier: str) -> None:
         "visitors; | builds any(self, other) containing both operands; nested unions are flattened without losing "
         "an alternative; d1 + d2 is the key-wise union with the right operand winning and entries unmodified; "
         "make_required keeps every key and member and only ever lowers the optional flag of the listed keys; "
-        "indexing and iteration expose the declared table. The stated set equalities over values are not decided.")
+        "indexing and iteration expose the declared table. The stated set equalities over values are not decided."
+        " The dict decision table of the validator is re-derived on the marker-first / marker-in-the-middle tables that d1 + d2 produces.")
     run.rule_text = ("one obligation per (combinator, operand shape); non-trivial = the result table was computed by the "
                      "interpreter through loops/unpacking and compared entry by entry")
     _PLAIN["cls"] = model.schemas["IntSchema"].cls
